@@ -155,7 +155,7 @@ class New(cssutils.util._BaseClass):
         # S
         context = self.context[-1]
         if context.startswith('pseudo-'):
-            if seq and seq[-1].value not in '+-':
+            if seq and not (isinstance(seq[-1].value, str) and seq[-1].value in '+-'):
                 # e.g. x:func(a + b)
                 self.append(seq, Constants.S, 'S', token=token)
             return expected
